@@ -66,7 +66,11 @@ def main(argv=None):
     c.add_argument("--unit", default=None)
     c.add_argument("-v", action="store_true")
     c.add_argument("-j", type=int, default=min(16, os.cpu_count() or 4))
+    r = sub.add_parser("replay")
+    r.add_argument("path")
     args = ap.parse_args(argv)
+    if args.cmd == "replay":
+        return replay(args.path)
     from segvc import report
 
     t0 = time.time()
@@ -86,6 +90,33 @@ def main(argv=None):
     if args.tier == "thorough" and not args.unit and "SEGVC_OUT" not in os.environ:
         selftest(args.prop, t0)
     return rc
+
+
+def replay(path):
+    """print the failed obligation with the solver's counter-model and re-execute, on the real code of the current
+    tree, the failing histories the native search recorded (exit 1 if one still fails, 0 if none does)"""
+    import re
+    import subprocess
+
+    from segvc.core import REPO
+
+    r = json.load(open(path))
+    print(f"property   {r['property']}\nobligation {r['obligation']} ({r['kind']}, unit {r['unit']}, path {r['path']})")
+    print(f"solver     {r['solver']['backend']}: {r['solver']['verdict']} in {r['solver']['seconds']:.2f}s")
+    print("goal       " + str(r["goal"])[:1500])
+    print("counter-model (pre-state of the segment, need not be reachable):")
+    for k, v in list((r["solver"]["model"] or {}).items())[:40]:
+        print(f"   {k} = {str(v)[:160]}")
+    native = r.get("native") or {}
+    m = re.search(r"failing_histories=(.*)$", native.get("output", ""), re.M)
+    if not m:
+        print("no failing input was recorded for this obligation: " + str(native.get("reason") or native.get("output", "")[-300:]))
+        return 0
+    script = os.path.join(ROOT, "replayers", f"{r['property']}.py")
+    env = dict(os.environ, PYTHONPATH=os.path.join(REPO, "src"), SEGVC_REPO=REPO)
+    p = subprocess.run(["/venv/bin/python", script, "--history", m.group(1)], capture_output=True, text=True, env=env, input="{}")
+    print(p.stdout + p.stderr[-500:])
+    return 1 if "reproduced=True" in p.stdout else 0
 
 
 def selftest(prop, t0):
